@@ -14,7 +14,7 @@ from xknx.telegram.apci import DeviceDescriptorRead, DeviceDescriptorResponse
 from ..explore import Chooser, explore, finalize_states, replay_schedule
 from ..ref.cemi import encode_ldata
 from ..runner import Ctx
-from ..vloop import World
+from ..vloop import World, texc
 
 TITLE = "point-to-point transport layer"
 OWN, DEV, OTHER = 0x1105, 0x1109, 0x110A
@@ -147,7 +147,7 @@ def make(n_requests: int):
                             returned.append(resp)
                         except ManagementConnectionError as exc:
                             results.append((i, type(exc).__name__, str(exc)[:40], None, t0, loop.time()))
-                        except Exception as exc:  # noqa: BLE001
+                        except BaseException as exc:  # noqa: BLE001  (a CancelledError leaking out of request() is an undeclared exception too)
                             results.append((i, "OTHER:" + type(exc).__name__, repr(exc)[:80], None, t0, loop.time()))
                     try:
                         await xknx.management.disconnect(IndividualAddress(DEV))
@@ -159,6 +159,8 @@ def make(n_requests: int):
                 loop.run_until(15 * n_requests + 30)
                 if not u.done():
                     viols.append(("request-never-returns", f"results={results}; events={events}"))
+                elif u.cancelled() or texc(u) is not None:
+                    viols.append((f"user-call-raises:{type(texc(u)).__name__}", f"{texc(u)!r}; results={results}; events={events}"))
                 # ---- oracle on what the user saw
                 consumed = 0
                 for res in results:
